@@ -450,6 +450,23 @@ impl St {
         found
     }
 
+    /// C03: every pointer obtained during the callback (read from the graph, upgraded, freshly
+    /// allocated) must still be valid when the callback ends.
+    pub fn recheck<'gc>(&self, found: &Found<'gc>) {
+        let mut bad = 0;
+        for (serial, p) in found.iter() {
+            let ok = match tag_of_addr(p.addr()) {
+                Some((t, released)) => t == *serial && !released && Self::value_check(*p, *serial) == (true, true),
+                None => false,
+            };
+            if !ok {
+                bad += 1;
+                ev!("{{\"ev\":\"held\",\"a\":{},\"o\":{},\"ok\":false}}", self.id, serial);
+            }
+        }
+        ev!("{{\"ev\":\"held\",\"a\":{},\"o\":0,\"ok\":{},\"n\":{}}}", self.id, bad == 0, found.len());
+    }
+
     fn operand<'gc>(&mut self, found: &Found<'gc>, model: &str, role: &str) -> Option<(u32, Ptr<'gc>)> {
         let r = self.serial_of(model).and_then(|s| found.get(&s).map(|p| (s, *p)));
         if r.is_none() {
